@@ -14,7 +14,7 @@ from . import c10
 ID = "C11"
 LEVEL = "model_checking"
 RULE = ("the circuit space of C10 (every topology of the listed levels x kinds {R,C,L,V,I} with 1..3 reactive elements and "
-        "1..2 sources x orientation x id scheme, positive values, prime and decades palettes; plus ladders with up to 6 (thorough 8) states), judged when non-degenerate "
+        "1..2 sources x orientation x id scheme, positive values, prime, decades and physical-unit palettes (ohms..megohms, picofarads..millifarads, nanohenries..henries); plus ladders with up to 6 (thorough 8) states), judged when non-degenerate "
         "(exact); for each the state matrix is tested for W*A + A^T*W <= 0 with W = diag(C..., L...) and for eigenvalues in the "
         "closed left half plane; for every non-degenerate class of the small levels the real TransientSolution is run for each "
         "pulse shape {step up/down as one-sample ramps, ramp, triangle} on each source and the stored energy computed from "
@@ -29,8 +29,8 @@ def budget_s(tier):
     return 400 if tier == "quick" else 3600
 
 
-LEVELS_QUICK = [(2, 2, "perm", ("real", "dec")), (2, 3, "perm", ("real", "dec")), (3, 3, "three", ("real", "dec")), (3, 4, "two", ("real",))]
-LEVELS_THOROUGH = [(2, 2, "perm", ("real", "dec")), (2, 3, "perm", ("real", "dec")), (3, 3, "perm", ("real", "dec")), (3, 4, "three", ("real", "dec")), (4, 4, "two", ("real",)), (4, 5, "two", ("real",))]
+LEVELS_QUICK = [(2, 2, "perm", ("real", "dec", "phys")), (2, 3, "perm", ("real", "dec", "phys")), (3, 3, "three", ("real", "dec", "phys")), (3, 4, "two", ("real", "phys"))]
+LEVELS_THOROUGH = [(2, 2, "perm", ("real", "dec", "phys")), (2, 3, "perm", ("real", "dec", "phys")), (3, 3, "perm", ("real", "dec", "phys")), (3, 4, "three", ("real", "dec", "phys")), (4, 4, "two", ("real", "phys")), (4, 5, "two", ("real",))]
 SIM_LEVELS_QUICK = [(2, 2), (2, 3), (3, 3)]
 SIM_LEVELS_THOROUGH = [(2, 2), (2, 3), (3, 3), (3, 4)]
 PULSES = ["step_up_down", "ramp", "triangle", "negative_step"]
